@@ -502,16 +502,25 @@ def handed_down_values_typed(h: Harness, rng):
         # (every other round: a refinement with SEVERAL dependencies of different types, named in another order than the fields are
         # declared -- the callable's arguments follow the names)
         units = trial % 2 == 1
-        g = ctxgrammar.units_grammar() if units else ctxgrammar.levels_grammar()
+        g = ctxgrammar.units_grammar(expansion=trial % 4 == 3) if units else ctxgrammar.levels_grammar()
         r = NativeRandomSource(rng.randrange(10**6))
         reps = [("tree", TreeBasedRepresentation(g, synth.make_decider("grow", 6, r, g))), ("GE", GE(g, synth.make_decider("grow", 6, r, g), gene_length=64)),
                 ("SGE", SGE(g, synth.make_decider("grow", 6, r, g), gene_length=64)), ("DynamicSGE", DSGE(g, 6))]
         for name, rep in reps:
             genos = []
+            foreign = None
             for _ in range(3):
                 st, a = safe(lambda: rep.create_genotype(r))
                 if st == "ok":
                     genos.append(a)
+                elif st == "err" and str(a).startswith("foreign"):
+                    foreign = a
+            if foreign is not None and units:
+                # ("creation either returns such a fully built program or fails with the library's own error type")
+                h.fail(f"{name}.create_genotype" if name != "tree" else "TreeBasedRepresentation.create_genotype", "foreign-error",
+                       f"creation on the units grammar (Union with a Dependent alternative, a refined slot of an abstract type; expansion_depthing={trial % 4 == 3}) "
+                       f"failed with {foreign} instead of the library's own error type", [name, trial])
+                break
             if len(genos) >= 2:
                 st, m = safe(lambda: rep.mutate(r, genos[0]))
                 if st == "ok":
@@ -521,6 +530,10 @@ def handed_down_values_typed(h: Harness, rng):
                     genos += list(cs)
             for geno in genos:
                 st, p = safe(lambda: rep.genotype_to_phenotype(geno))
+                if st == "err" and str(p).startswith("foreign") and units:
+                    h.fail(f"{name}.genotype_to_phenotype" if name != "tree" else "TreeBasedRepresentation.create_genotype", "foreign-error",
+                           f"mapping on the units grammar (expansion_depthing={trial % 4 == 3}) failed with {p} instead of the library's own error type", [name, trial])
+                    break
                 if st != "ok":
                     continue
                 h.count(f"{'several-dependencies-typed' if units else 'handed-down-values-typed'}:{name}")
